@@ -10,7 +10,8 @@ Request  {"engine":"report","op":"run","cfg":{…},"deadline":null|n,"now":n,"pl
   PLAN   {"op":"mock","rows":[ROW],"failAt":null|n,"sleepAt":null|[k,d]}
          {"op":"table","file":[[ROW,bool]],"mem":[ROW],"includeMem":b,"oomAt":null|c,
                        "co":null|{"deadline":null|n,"first":b,"fault":FAULT}}
-         {"op":"cluster","parts":[{"rows":[ROW],"outcome":{"kind":"ok"|"noHandler"|"failAfter"|"silentAfter"|"retryAfter","k":n}}],
+         {"op":"cluster","parts":[{"rows":[ROW],"outcome":{"kind":"ok"|"noHandler"|"failAfter"|"silentAfter"|"retryAfter"|"eofAfter","k":n}
+                                   (or "attempts":[{"kind":"stale"}|OUTCOME …], the queue of handlers)}],
                          "events":[{"e":"msg","p":n,"early":b}|{"e":"tick","d":n}|{"e":"timeout"}],"unflat":b}
          {"op":"filter","mod":m,"rem":r,"errKey":null|key,"minVal":null|x,"p":PLAN}
                                                                           keep ⇔ key % m ≠ r  (minVal: ⇔ first value > x)
@@ -108,7 +109,13 @@ def rpOutcome (j : Json) : R PartOutcome := do
   | "failAfter" => pure (.failAfter (← nat j "k"))
   | "silentAfter" => pure (.silentAfter (← nat j "k"))
   | "retryAfter" => pure (.retryAfter (← nat j "k"))
+  | "eofAfter" => pure (.eofAfter (← nat j "k"))
   | k => throw s!"report: unknown outcome {k}"
+
+/-- a partition's queue of handlers: `[{"kind":"stale"} | OUTCOME …]` -/
+def rpAttempts (j : Json) : R (List Attempt) := do
+  (← j.getArr?).toList.mapM (fun a => do
+    if (← str a "kind") == "stale" then pure Attempt.stale else pure (Attempt.answer (← rpOutcome a)))
 
 def rpEvent (j : Json) : R CEvent := do
   match (← str j "e") with
@@ -145,7 +152,11 @@ partial def rpPlan (j : Json) : R (Plan × List (Row × Nat)) := do
   | "cluster" =>
     let parts ← (← arr j "parts").toList.mapM (fun e => do
       let rows ← rpRows e "rows"
-      pure (({ rows := rows.map (·.1), outcome := ← rpOutcome (← obj e "outcome") } : Part), rows))
+      -- "attempts" (the queue of handlers) takes precedence over a single "outcome"
+      let oc ← match e.getObjVal? "attempts" with
+        | .ok a => do pure (effectiveOutcome (← rpAttempts a))
+        | .error _ => rpOutcome (← obj e "outcome")
+      pure (({ rows := rows.map (·.1), outcome := oc } : Part), rows))
     let evs ← (← arr j "events").toList.mapM rpEvent
     pure (.cluster { parts := parts.map (·.1), events := evs, unflat := boolD j "unflat" false }, (parts.map (·.2)).flatten)
   | "filter" =>
